@@ -5,6 +5,7 @@ CONSTANTS Peers = {"a", "b"}
           MaxEnv = 0
           MaxFire = 0
           MaxDialFail = 0
+          StopOrders = {"cancel-first", "timer-first"}
           Devs = @DEVS@
 INVARIANTS TypeOK DevReport
 CONSTRAINT TraceConstraint
